@@ -193,11 +193,12 @@ Section F.
     { intros e v x Hx. unfold upd. destruct (Nat.eqb x u) eqn:E; [|reflexivity]. apply Nat.eqb_eq in E. subst x. exfalso.
       unfold free in Hx. clear -Hx. induction (filter (fun k => negb (Nat.eqb k u)) (cvars c)) as [|k l IH] eqn:El in Hx |- *.
       - destruct Hx.
-      - assert (K : forall l', (forall y, In y l' -> negb (Nat.eqb y u) = true) -> In u (nodup_keys l') -> False).
-        { clear. induction l' as [|y l' IH]; intros P H; [destruct H|]. cbn [nodup_keys] in H.
-          destruct (existsb (Nat.eqb y) l'); [apply IH; [intros z Hz; apply P; now right | exact H]|].
-          destruct H as [->|H]; [specialize (P u (or_introl eq_refl)); rewrite Nat.eqb_refl in P; discriminate|].
-          apply IH; [intros z Hz; apply P; now right | exact H]. }
+      - assert (K0 : forall l' seen, In u (nodup_keys_from seen l') -> In u l').
+        { clear. induction l' as [|y l' IH]; intros seen H; [destruct H|]. cbn [nodup_keys_from] in H.
+          destruct (existsb (Nat.eqb y) seen); [right; now apply (IH seen)|].
+          destruct H as [->|H]; [now left | right; now apply (IH (y :: seen))]. }
+        assert (K : forall l', (forall y, In y l' -> negb (Nat.eqb y u) = true) -> In u (nodup_keys l') -> False).
+        { intros l' P H. apply K0 in H. specialize (P u H). rewrite Nat.eqb_refl in P. discriminate. }
         apply (K (k :: l)); [|exact Hx]. intros y Hy. rewrite <- El in Hy. now apply filter_In in Hy as [_ Hy]. }
     assert (CAN : forall e v, canon (upd e u v) = canon e).
     { intros e v. unfold canon. apply map_ext_in. intros x Hx. now rewrite UPD. }
